@@ -150,7 +150,14 @@ pub fn run(ctx: &Ctx, out: &mut Out) {
                         "slg_antiunify_order"
                     } else if name == "slg" && ((trivial_unique(&first) && unknown(a)) || (trivial_unique(a) && unknown(&first))) {
                         "slg_trivial_answer_order"
+                    } else if name == "slg" && ((first.starts_with("Unique") && a.starts_with("Ambiguous")) || (first.starts_with("Ambiguous") && a.starts_with("Unique"))) {
+                        // F13b: one order finds the single answer, another order aggregates (or cuts a cycle) and only gives guidance
+                        "slg_unique_vs_ambiguous_order"
+                    } else if name == "slg" && ((first.starts_with("No possible") && a.starts_with("Ambiguous")) || (first.starts_with("Ambiguous") && a.starts_with("No possible"))) {
+                        // F13b: one order refutes the goal, another runs into the size limit first and answers Ambiguous
+                        "slg_no_solution_vs_ambiguous_order"
                     } else {
+                        // `No possible solution` vs `Unique`, two different `Unique`s, anything of the recursive solver
                         "answer_depends_on_declaration_order"
                     };
                     out.fail(
